@@ -250,7 +250,9 @@ let run_upown (parts : string list) : string =
   let up = fld f "up" in
   let k = ukind_of up in
   let mux = (fld_opt f "alpn" <> Some "h1") in
-  let plan = List.filter (fun s -> s <> "" && s <> "-") (String.split_on_char ',' (fld f "plan")) in
+  (* hf = an exchange whose TLS / QUIC handshake fails: the dial fails, nothing is acquired, the model state is unchanged
+     (the dial closure as a program: C18_failed_handshake_releases) *)
+  let plan = List.filter (fun s -> s <> "" && s <> "-" && s <> "hf") (String.split_on_char ',' (fld f "plan")) in
   let plan = List.map (fun s -> match s with
       | "ok" -> UoPlOk | "tc" -> UoPlTc | "mu" -> UoPlMute | "tm" -> UoPlTcMute
       | _ -> failwith ("upown: unknown plan step " ^ s)) plan in
@@ -258,7 +260,7 @@ let run_upown (parts : string list) : string =
   | None -> "MODEL-STUCK || spec=FAIL:plan-not-applicable"
   | Some (s, hs) ->
     let cnt st udp = int_of_nat (uo_sockets k udp st) in
-    let pre = if fld_opt f "q0" <> None || not mux then "-" else Printf.sprintf "%d/%d" (cnt s true) (cnt s false) in
+    let pre = if fld_opt f "q0" <> None || fld_opt f "hs" <> None || not mux then "-" else Printf.sprintf "%d/%d" (cnt s true) (cnt s false) in
     let s1 = uo_close_settled k s in
     let s2 = uo_close_settled k s1 in
     let infl = List.map (fun h -> match uo_result s2 h with Some false -> "err" | Some true -> "ok" | None -> "late") hs in
@@ -308,7 +310,7 @@ let si_item_of (it : string) : (si_kind * si_fault option) * (bool * bool) =
     | "u" -> SiKUp (match kind with "quic" | "doq" | "h3" -> SiUpSock | _ -> SiUpLazy)
     | "d" -> SiKSet
     | "r" -> SiKRule
-    | "c" -> SiKCache (has "mem", fault = Some "badredis",
+    | "c" -> SiKCache (has "mem", has "redis" || fault = Some "badredis",
                        has "marker" || fault = Some "nomarker" || fault = Some "badmarker")
     | "s" -> SiKSrv (match kind with
         | "udp" | "udp1" -> SiSrvUdp | "udp2" -> SiSrvUdpN | "tcp" -> SiSrvTcp | "gnet" -> SiSrvGnet
